@@ -197,7 +197,7 @@ def plan(prop, tier, seed, budget):
         P = dict(
             level='exploration',
             builds=[('tree', 'asan')] + ([] if q else [('tree', 'rel'), ('tree', 'fuzz')]),
-            jobs=[g1_jobs('tree', sc, 200000 if q else 3000000), g2_jobs('tree', 30000 if q else 200000)] +
+            jobs=[g1_jobs('tree', sc, 200000 if q else 3000000), g2_jobs('tree', 50000 if q else 200000)] +
                  ([] if q else [g2_jobs('tree', 15000, variant='rel'), g3_jobs('tree', 300000)]),
             py=[] if q else [g3_stats('tree')],
             rule='case = byte-coded insert / hinted insert / erase history on a cstl_rbtree (heavy key duplication); oracle = '
@@ -231,7 +231,7 @@ def plan(prop, tier, seed, budget):
             builds=[('map', 'asan')] + ([] if q else [('map', 'rel'), ('map', 'fuzz')]),
             jobs=[g1_jobs('map', ['3:0:0:seq4', '4:0:5', '4:1:5', '3:2:3'] if q else
                           ['3:0:0:seq5', '4:0:7', '4:1:7', '4:2:5', '3:1:0:seq4'], 200000 if q else 3000000),
-                  g2_jobs('map', 200000 if q else 1500000)] +
+                  g2_jobs('map', 130000 if q else 1500000)] +
                  ([] if q else [g2_jobs('map', 60000, variant='rel'), g3_jobs('map', 400000)]),
             py=[] if q else [g3_stats('map')],
             rule='case = byte-coded history of insert (with/without iterator), find, erase by key (with/without iterator), '
@@ -367,7 +367,7 @@ def plan(prop, tier, seed, budget):
         P = dict(
             level='exploration',
             builds=[('sort', 'asan')] + ([] if q else [('sort', 'rel'), ('sort', 'fuzz')]),
-            jobs=[g1_jobs('sort', sort_scopes(not q), 200000 if q else 3000000), g2_jobs('sort', 100000 if q else 600000)] +
+            jobs=[g1_jobs('sort', sort_scopes(not q), 200000 if q else 3000000), g2_jobs('sort', 75000 if q else 600000)] +
                  ([] if q else [g1_jobs('sort', sort_scopes(False), 200000, variant='rel'), g2_jobs('sort', 100000, variant='rel'),
                                 g3_jobs('sort', 60000)]),
             py=[] if q else [g3_stats('sort')],
@@ -383,7 +383,7 @@ def plan(prop, tier, seed, budget):
         P = dict(
             level='exploration',
             builds=[('array', 'asan')] + ([] if q else [('array', 'rel'), ('array', 'fuzz')]),
-            jobs=[g1_jobs('array', ['seq3:%d:16' % k for k in range(16)], 3000000), g2_jobs('array', 120000 if q else 600000)] +
+            jobs=[g1_jobs('array', ['seq3:%d:16' % k for k in range(16)], 3000000), g2_jobs('array', 200000 if q else 600000)] +
                  ([] if q else [g1_jobs('array', ['cseq4:%d:16' % k for k in range(16)], 3000000),
                                 g2_jobs('array', 50000, variant='rel'), g3_jobs('array', 400000)]),
             py=[] if q else [g3_stats('array')],
